@@ -40,11 +40,13 @@ theorem scanOrder_before (bs : List Blk) (st : Strand) (hst : st = .plus ∨ st 
     simp only [scanOrder, show (Strand.minus = Strand.plus) = False by simp, if_false, List.pairwise_reverse]
     exact hp.imp (fun h => by simpa [Before] using h)
 
-/-- multi-exon path: the prepared (location, offset) pair -/
-theorem prepareMulti_ok (c : CDS) (h : WFCDS c)
+/-- multi-exon path: the cleaned location (before any window is applied) -/
+theorem prepareMulti_cleaned (c : CDS) (h : WFCDS c)
     (hshallow : shallowTrim (exonWalk c.loc (specFrames c)) = true)
     (hkept : cdsKept c.loc (specFrames c) ≠ []) :
-    ∃ L, prepareMulti c none = .ok (.compound ⟨L, c.loc.strand⟩, 0) ∧ (∀ b ∈ L, b.1 < b.2) ∧
+    ∃ stt L, c.exonIter.length = c.frameIter.length ∧
+      cleanExons c.loc CleanSt.init (c.exonIter.zip c.frameIter) = .ok stt ∧
+      cleanedLocation c.loc stt = .ok ⟨L, c.loc.strand⟩ ∧ L ≠ [] ∧ (∀ b ∈ L, b.1 < b.2) ∧
       L.Pairwise (fun a b => a.2 ≤ b.1) ∧ bases ⟨L, c.loc.strand⟩ = cdsKept c.loc (specFrames c) := by
   rcases hc : c.loc with ⟨bs, st⟩
   have hdir : st = .plus ∨ st = .minus := by have := h.dir; rw [hc] at this; exact this
@@ -89,19 +91,27 @@ theorem prepareMulti_ok (c : CDS) (h : WFCDS c)
   simp only [List.append_nil] at hwithin
   obtain ⟨L, hL1, hL2, hL3, hL4, hL5⟩ := cleanedLocation_ok bs st hdir hvb hord fs5 stt _ hvalid hchain hwithin
     (by rw [hflat]; exact hkept)
-  refine ⟨L, ?_, hL3, hL4, by rw [hL5, hflat]; rfl⟩
-  -- the model's computation
-  have hst : c.strand = st := by unfold CDS.strand; rw [hc]
-  have hoff := frameOffset_self c L hL2 (by rw [hst]; exact hdir) hL4 hL3
-  rw [hst] at hoff
-  unfold prepareMulti
-  have hlens : ¬ (c.exonIter.length ≠ c.frameIter.length) := by
+  have hlens : c.exonIter.length = c.frameIter.length := by
     rw [hex, hfr, ← hfs5]; unfold scanOrder
     split <;> split <;> simp [hlen]
-  rw [if_neg hlens]
-  simp only [bind, Except.bind, pure, Except.pure]
-  rw [hex, hfr, hc, hloop, h1]
-  simp only [hL1, windowTruthy, hoff]
+  refine ⟨stt, L, hlens, ?_, hL1, hL2, hL3, hL4, by rw [hL5, hflat]; rfl⟩
+  rw [hex, hfr, hloop, h1]
+
+/-- multi-exon path: the prepared (location, offset) pair -/
+theorem prepareMulti_ok (c : CDS) (h : WFCDS c)
+    (hshallow : shallowTrim (exonWalk c.loc (specFrames c)) = true)
+    (hkept : cdsKept c.loc (specFrames c) ≠ []) :
+    ∃ L, prepareMulti c none = .ok (.compound ⟨L, c.loc.strand⟩, 0) ∧ (∀ b ∈ L, b.1 < b.2) ∧
+      L.Pairwise (fun a b => a.2 ≤ b.1) ∧ bases ⟨L, c.loc.strand⟩ = cdsKept c.loc (specFrames c) := by
+  obtain ⟨stt, L, hlens, hrun, hL1, hL2, hL3, hL4, hL5⟩ := prepareMulti_cleaned c h hshallow hkept
+  refine ⟨L, ?_, hL3, hL4, hL5⟩
+  have hoff := frameOffset_self c L hL2 h.dir hL4 hL3
+  unfold prepareMulti
+  rw [if_neg (by omega)]
+  simp only [bind, Except.bind, pure, Except.pure, hrun, hL1, windowTruthy]
+  have hst : c.strand = c.loc.strand := rfl
+  rw [hst] at hoff
+  simp only [hoff]
 
 /-- single-exon path: the prepared (location, offset) pair -/
 theorem prepareSingle_ok (c : CDS) (h : WFCDS c) (e : Blk) (hone : c.loc.blocks = [e]) :
@@ -126,7 +136,11 @@ theorem prepareSingle_ok (c : CDS) (h : WFCDS c) (e : Blk) (hone : c.loc.blocks 
     rw [hst] at hoff
     unfold prepareSingle
     simp only [hf, List.head?_cons, hc, windowTruthy, bind, Except.bind, pure, Except.pure, hoff]
-    simp
+    -- robust against the repair of F-C05a (`(offset + d) % 3` in `prepareSingle`)
+    have hfv := frame_value_range f hfn
+    first
+      | (simp; done)
+      | (simp; omega)
   · -- the walk of a single exon
     unfold cdsKept specFrames
     rw [hf]
